@@ -429,6 +429,8 @@ class Builder(object):
                 ctext = self.name_map.get(ctext, ctext)
         else:
             f_t = simp(self.t(fn))
+        if ctext in ('list', 'dict', 'tuple') and not args and not kws and ctext not in self.env:
+            return (ctext,)          # list() / dict() / tuple() are the empty literals [] / {} / ()
         if ctext in TRANSPARENT_CALLS and len(args) >= 1 and not (self.strict_casts and (kws or len(args) > 1)):
             return self._unsimp(args[0])     # a plain conversion; under strict_casts a dtype=/copy= argument keeps it visible as a cast
         if isinstance(fn, ast.Attribute) and fn.attr == 'get' and 1 <= len(args) <= 2 and not kws and isinstance(f_t, tuple) and f_t[0] == 'attr':
